@@ -243,7 +243,7 @@ def validate(case):
         ok_expr(eq[1])
         ok_expr(eq[2])
         a = term_str(eq[1][1])
-        if a in terms_in(eq[1][2]) or a in terms_in(eq[2]):
+        if (a in terms_in(eq[1][2]) or a in terms_in(eq[2])) and not case.get("degenerate"):
             raise Invalid("eliminated fluent occurs on the other side")
     if "expr" in case:
         ok_expr(case["expr"])
@@ -578,6 +578,22 @@ def gen(ch, tier):
         if c0[0] == "=" and isinstance(c0[1], list) and c0[1][0] == "+":
             c0[1] = ["-", c0[1][1], c0[1][2]]
     return case
+
+
+def corpus():
+    # a contradictory equality offered for elimination: nothing to eliminate, must not crash, stays unsatisfiable
+    yield "contradictory-assumption", {"entry": "print", "fluents": [["load-limit", []], ["w", ["?x"]]], "digits": 3, "degenerate": True,
+                                       "conds": [[">=", ["load-limit"], ["w", "?x"]]],
+                                       "equalities": [["=", ["+", ["w", "?x"], "1"], ["w", "?x"]]]}
+    yield "contradictory-assumption-ineq", {"entry": "ineq", "fluents": [["load-limit", []], ["w", ["?x"]]], "digits": 4, "degenerate": True,
+                                            "conds": [[">=", ["load-limit"], ["w", "?x"]]],
+                                            "equalities": [["=", ["+", ["w", "?x"], "1"], ["w", "?x"]]]}
+    yield "contradictory-equality", {"entry": "eq", "fluents": [["dist", ["?p1"]]], "digits": 6,
+                                     "conds": [["=", ["dist", "?p1"], ["-", ["dist", "?p1"], "-1"]]]}
+    yield "near-integer", {"entry": "ineq", "fluents": [["fuel", ["?p1"]]], "digits": 4, "conds": [["<", ["fuel", "?p1"], "2.99999"]]}
+    yield "tiny-factor", {"entry": "expr", "fluents": [["lvl_a2", ["a-b", "c_d"]], ["w", []]], "digits": 4,
+                          "expr": ["+", ["*", "0.00001", ["lvl_a2", "a-b", "c_d"]], ["w"]]}
+    yield "half", {"entry": "tree", "fluents": [["cost_total", []]], "digits": 2, "conds": [[">=", ["/", ["cost_total"], "2"], "10"]]}
 
 
 def plan(tier):
